@@ -343,8 +343,9 @@ def write_evidence(pid, tier, seed, t0, meta, results, replays, canary_report, i
         "wall_s": round(time.time() - t0, 2),
         "violations": len(violations),
     }
-    os.makedirs(os.path.join(ROOT, "evidence"), exist_ok=True)
-    with open(os.path.join(ROOT, "evidence", f"{pid}.json"), "w") as f:
+    evdir = os.environ.get("SYMX_EVIDENCE_DIR") or os.path.join(ROOT, "evidence")  # (redirected only for seeded-change evaluation)
+    os.makedirs(evdir, exist_ok=True)
+    with open(os.path.join(evdir, f"{pid}.json"), "w") as f:
         json.dump(ev, f, indent=1, default=str)
 
 
